@@ -33,7 +33,7 @@ ASSUMPTIONS = [
 ]
 MUST_REACH = {"resolutions_checked": 2000, "name_lookups_checked": 1000, "temporary_caps_consumed": 50,
               "seed_flows": 100, "proxy_only_stripped": 30, "wrapper_caps_checked": 30, "proxy_cap_reregistrations": 30,
-              "prefix_related_resolutions": 50, "regranted_names": 30, "old_urls_regranted": 20, "name_lookups_after_consumption_with_survivors": 10}
+              "prefix_related_resolutions": 50, "regranted_names": 30, "old_urls_regranted": 20, "name_lookups_after_consumption_with_survivors": 10, "wrapper_redirects_checked": 30}
 
 NAMES = ["Seed2", "EventQueueGet", "FetchInventory2", "GetTexture", "GetMesh2", "ViewerAsset", "UpdateScriptAgent",
          "ObjectMedia", "SimulatorFeatures", "UploadBakedTexture"]
@@ -159,6 +159,38 @@ def check_name_lookup(ctx, m, name, wit):
     ctx.nontrivial(("name", name))
 
 
+def check_wrapper_stands_for(ctx, rig, name, granted_url, wrapper_url, wit):
+    """A request the viewer makes through the presented wrapper URL must end up at the URL the simulator granted."""
+    import copy
+    import urllib.parse
+    suffix = "/?texture_id=00000000-0000-0000-0000-00000000abcd"
+    flow = make_flow(wrapper_url + suffix)
+    rig.flow_context.to_proxy_queue.log.clear()
+    rig.send_event("request", flow)
+    exc = rig.pump()
+    if exc is not None or len(rig.flow_context.to_proxy_queue.log) != 1:
+        ctx.violation("wrapper-request-not-handed-back", "a request through a wrapper URL was not handed back once",
+                      dict(wit, name=name, exc=repr(exc)[:200]))
+        return
+    back = HippoHTTPFlow.from_state(copy.deepcopy(rig.flow_context.to_proxy_queue.log[-1][2]), rig.session_manager)
+    if back.response is not None and back.response.status_code in (301, 302, 307, 308):
+        target = back.response.headers.get("Location", "")
+    else:
+        target = back.request.url
+    ctx.count("wrapper_redirects_checked")
+    got = urllib.parse.urlsplit(target)
+    want = urllib.parse.urlsplit(granted_url + suffix)
+    def_port = {"http": 80, "https": 443}
+    got_port = got.port or def_port.get(got.scheme)
+    want_port = want.port or def_port.get(want.scheme)
+    # the wrapper forces plain http, so a granted https URL on its default port is reached on http's default port
+    ports_ok = got_port == want_port or (want.port is None and got.port is None)
+    if (got.hostname, got.path, got.query) != (want.hostname, want.path, want.query) or not ports_ok:
+        ctx.violation("wrapper-does-not-stand-for-granted-url", "a request through the wrapper URL shown to the viewer does not "
+                      "end up at the asset URL the simulator granted", dict(wit, name=name, granted=granted_url,
+                                                                         wrapper=wrapper_url, target=target))
+
+
 def seed_flow(ctx, rng, rig, m, regions, sessions, wit):
     """A Seed request (viewer -> sim) and response (sim -> viewer) through the real event manager."""
     ctx.count("seed_flows")
@@ -225,6 +257,8 @@ def seed_flow(ctx, rng, rig, m, regions, sessions, wit):
             if wurl == u:
                 ctx.violation("asset-cap-not-wrapped", "an asset capability was shown to the viewer without a wrapper URL",
                               dict(wit, name=n))
+            else:
+                check_wrapper_stands_for(ctx, rig, n, u, wurl, wit)
         elif shown[n] != u:
             ctx.violation("seed-response-url-changed", "a granted capability URL was changed in the rewritten seed response",
                           dict(wit, name=n, shown=shown[n], granted=u))
